@@ -425,7 +425,7 @@ def model_check(ctx: Ctx, rep: Report) -> dict:
         emit += [("par2x", "2 workers, 2 keys, <= 2 crashes"), ("par3", "3 workers, 3 keys, 1 crash")]
         jobs.append(("par4", "CacheCrash_par4.cfg", {"workers": 4}, "2 workers, 4 keys, <= 2 crashes: NoRaise, NoRecompute (no emission)"))
     for name, what in emit:
-        jobs.append((name, f"CacheCrash_{name}.cfg", {"workers": 4},
+        jobs.append((name, f"CacheCrash_{name}.cfg", {"workers": 8 if name == "par3" else 4},
                      f"every crash point: NoRaise, NoRecompute, FinalWhole, no deadlock; emission of crash histories ({what})"))
     results = _tlc_many(ctx, [("CacheCrash.tla", cfg, kw) for _, cfg, kw, _ in jobs])
     emitted = {}
